@@ -690,18 +690,18 @@ func c47Panics(c *Ctx) {
 	}
 	env := "environment failure (random source / crypto primitive refuses a correctly sized key); not input-dependent"
 	table := map[string]string{
-		"otr.(*Conversation).randMPI: otr: short read from random source":          env,
-		"otr.(*Conversation).generateDHCommit: otr: short read from random source": env,
-		"otr.(*Conversation).generateDHCommit: invoke:(error).Error":                     env + " (aes.NewCipher on the 16-byte r)",
-		"otr.(*Conversation).generateEncryptedSignature: invoke:(error).Error":           env + " (aes.NewCipher on a 16-byte derived key)",
-		"otr.(*Conversation).processEncryptedSig: invoke:(error).Error":                  env + " (aes.NewCipher on a 16-byte derived key)",
-		"otr.(*Conversation).processData: invoke:(error).Error":                          env + " (aes.NewCipher on the 16-byte slot key)",
-		"otr.(*Conversation).generateData: invoke:(error).Error":                         env + " (aes.NewCipher on the 16-byte slot key)",
+		"otr.(*Conversation).randMPI: otr: short read from random source":           env,
+		"otr.(*Conversation).generateDHCommit: otr: short read from random source":  env,
+		"otr.(*Conversation).generateDHCommit: invoke:(error).Error":                env + " (aes.NewCipher on the 16-byte r)",
+		"otr.(*Conversation).generateEncryptedSignature: invoke:(error).Error":      env + " (aes.NewCipher on a 16-byte derived key)",
+		"otr.(*Conversation).processEncryptedSig: invoke:(error).Error":             env + " (aes.NewCipher on a 16-byte derived key)",
+		"otr.(*Conversation).processData: invoke:(error).Error":                     env + " (aes.NewCipher on the 16-byte slot key)",
+		"otr.(*Conversation).generateData: invoke:(error).Error":                    env + " (aes.NewCipher on the 16-byte slot key)",
 		"otr.(*Conversation).generateData: otr: failed to generate sending keys: …": "calcDataKeys(myKeyId-1, theirKeyId) with the conversation's own current ids; the slot exists once the AKE completed, which C47.ake-table ties to stateEncrypted",
-		"otr.(*PrivateKey).Sign: invoke:(error).Error":                                   env + " (dsa.Sign)",
-		"otr.(*PrivateKey).Sign: DSA signature too large":                          "r, s < q (160 bits) by dsa.Sign's contract",
-		"otr.(*Conversation).Receive: bad state":                                   "authState takes only the four constants (C47.ake-table covers all four; who-may-write check below)",
-		"otr.(*Conversation).processSMP: unknown SMP message":                      "discharged by C47.smp-table (Receive forwards exactly the handled TLV types)",
+		"otr.(*PrivateKey).Sign: invoke:(error).Error":                              env + " (dsa.Sign)",
+		"otr.(*PrivateKey).Sign: DSA signature too large":                           "r, s < q (160 bits) by dsa.Sign's contract",
+		"otr.(*Conversation).Receive: bad state":                                    "authState takes only the four constants (C47.ake-table covers all four; who-may-write check below)",
+		"otr.(*Conversation).processSMP: unknown SMP message":                       "discharged by C47.smp-table (Receive forwards exactly the handled TLV types)",
 	}
 	sites := c.explicitPanics([]*ssa.Function{recv}, "otr")
 	seen := map[string]bool{}
